@@ -642,37 +642,42 @@ def _undecodable_ok(req):
     return req["kind"] != "undecodable" or not_a_request(req["body"])
 
 
+RECYCLE = 300     # cases per server: successful Creates grow the store and every case dumps it
+
+
 def worker_random(seed, n):
     col = core.Collector(PID)
-    rig = Rig()
+    state = {"rig": Rig(), "used": 0}
 
     def one(spec):
         if not _undecodable_ok(spec["req"]):
-            # a truncation that happens to fall on an item edge is still well-formed TTLV:
-            # not what 'undecodable bytes' means here
-            col.exclude("random body turned out to be well-formed TTLV")
+            col.exclude("random body that could be a request (reference parser)")
             return
-        buckets, classes, nt = rig.run(spec)
+        if state["used"] >= RECYCLE:
+            state["rig"].close()
+            state["rig"] = Rig()
+            state["used"] = 0
+        state["used"] += 1
+        buckets, classes, nt = state["rig"].run(spec)
         col.record(spec, nontrivial=nt, classes=classes, buckets=buckets)
         col.bump("random_cases")
 
     try:
         core.draw_examples(case_strategy(), n, seed, one)
     finally:
-        rig.close()
+        state["rig"].close()
     return col
 
 
 # ------------------------------------------------------------------------------ entry points
 def run(ctx):
     nshards = 16
-    tasks = [("worker_product", (s, nshards)) for s in range(nshards)]
-    per = ctx.n(500, 15000)
-    rnd = [("worker_random", (core.derive_seed(ctx.seed, "rnd", s), per)) for s in range(nshards)]
-    dicts = []
-    # two run_sharded calls (one worker function each)
-    dicts += core.run_sharded("vlib.props.c17", "worker_product", [a for _, a in tasks])
-    dicts += core.run_sharded("vlib.props.c17", "worker_random", [a for _, a in rnd])
+    per = ctx.n(500, 10000)
+    dicts = core.run_sharded("vlib.props.c17", "worker_product",
+                             [(s, nshards) for s in range(nshards)])
+    dicts += core.run_sharded("vlib.props.c17", "worker_random",
+                              [(core.derive_seed(ctx.seed, "rnd", s), per)
+                               for s in range(nshards)])
     col = core.merged(PID, dicts)
     total = sum(1 for _ in product_cells())
     if col.extra.get("product_cells") != total:
